@@ -38,7 +38,7 @@ def plan(tier, seed):
 
 
 def unit_timeout(tier):
-    return 45 if tier == "quick" else 480
+    return 90 if tier == "quick" else 480
 
 
 def floors(tier):
